@@ -813,6 +813,12 @@ func (p *Path) execNext(th *Thread, fr *Frame, x *ssa.Next) {
 		fr.ip++
 		return
 	}
-	p.set(fr, x, TupleV{tc.False, p.wk.zero(tt.At(1).Type()), p.wk.zero(tt.At(2).Type())})
+	zeroOr := func(t types.Type) Value {
+		if b, ok := t.(*types.Basic); ok && b.Kind() == types.Invalid {
+			return nil // component not used by the range statement
+		}
+		return p.wk.zero(t)
+	}
+	p.set(fr, x, TupleV{tc.False, zeroOr(tt.At(1).Type()), zeroOr(tt.At(2).Type())})
 	fr.ip++
 }
